@@ -30,7 +30,7 @@ def make_cases(rng, tier):
     cases = []
     for i in range(n):
         S = 1 + (i % 2)
-        classes = rng.choice([[0, 1], [2, 0, 1], [0, 1, 2], [5, 0, 300], [3, 1]])
+        classes = rng.choice([[0, 1], [2, 0, 1], [0, 1, 2], [5, 0, 300], [3, 1], [-2, 1, 0], [1, -1, -3]])      # incl. signed intermediate values declared as classes
         W = rng.choice([1, 2, 3])
         hi = 5 if S == 2 else 9
         build = [{'t': [rng.randint(0, hi) for _ in range(S)], 'd': [c]} for c in classes for _ in range(2)]
@@ -59,13 +59,14 @@ def make_cases(rng, tier):
     return cases
 
 
-def containers(case, dtype, scale):
+def containers(case, dtype, scale, offset=0):
     import scared
     b, m = case['build'] * case.get('rep', 1), case['match']
-    tb = (np.array([r['t'] for r in b], dtype='float64') * scale).astype(dtype)
-    vb = np.array([r['d'] for r in b], dtype='uint16')
-    tm = (np.array([r['t'] for r in m], dtype='float64') * scale).astype(dtype)
-    hm = np.array([r['d'] for r in m], dtype='uint16')
+    vdt = 'int16' if min([x for r in b + m for x in r['d']] + [0]) < 0 else 'uint16'
+    tb = (np.array([r['t'] for r in b], dtype='float64') * scale + offset).astype(dtype)
+    vb = np.array([r['d'] for r in b], dtype=vdt)
+    tm = (np.array([r['t'] for r in m], dtype='float64') * scale + offset).astype(dtype)
+    hm = np.array([r['d'] for r in m], dtype=vdt)
     cb = scared.Container(scared.traces.read_ths_from_ram(samples=tb, v=vb))
     cm = scared.Container(scared.traces.read_ths_from_ram(samples=tm, h=hm))
     return cb, cm
@@ -120,20 +121,23 @@ def run(chk):
     if not r0.violated:
         raise tlc.TLCError('TplCases lost sensitivity: "count <= 1 -> 2 before the mean" is no longer refuted')
     res = st.cases_run(chk, 'TplCases', cases, ['PInvLemma', 'KMatchesP', 'ScalingLemma', 'BuildReplication'], 'CASES:templates')
-    pres = [('uint8', 1.0), ('int16', 1.0), ('float32', 0.5), ('float64', 0.25)]
+    # (dtype, scale, offset): the last two ride on offsets whose squares do not fit the traces' own integer type (templates shift, covariance and scores do not)
+    pres = [('uint8', 1.0, 0), ('int16', 1.0, 0), ('float32', 0.5, 0), ('float64', 0.25, 0), ('uint8', 1.0, 100), ('int16', 1.0, 300)]
     old_bs = scared.Container._BATCH_SIZE
     try:
         for ci, (case, rs) in enumerate(zip(cases, res)):
             c = case['c']
             S = c['S']
-            dt, sc = pres[ci % 4]
+            dt, sc, off = pres[ci % len(pres)]
+            if off and not all(any(r['d'][0] == cv for r in case['build']) for cv in c['classes']):
+                off = 0            # a declared class without building traces keeps the zero template: the profile is shift-equivariant only when every class is populated
             for bs in ([None, 700] if case.get('rep') else [None, 3] if chk.tier == 'quick' else [None, 1, 2, 5]):
                 scared.set_batch_size(bs)
                 for prec in ('float32', 'float64'):
-                    cb, cm = containers(case, dt, sc)
+                    cb, cm = containers(case, dt, sc, off)
                     for which in ('static', 'dpa'):
                         a = attacks(case, cb, prec, which)
-                        ctx = {'case': case, 'which': which, 'batch_size': bs, 'trace_dtype': dt, 'scale': sc, 'key': (ci, which, bs)}
+                        ctx = {'case': case, 'which': which, 'batch_size': bs, 'trace_dtype': dt, 'scale': sc, 'offset': off, 'key': (ci, which, bs)}
                         # matching before build is refused, and does not prevent build + run afterwards
                         try:
                             a.run(cm)
@@ -143,15 +147,15 @@ def run(chk):
                         if ci % 3 == 1 and len(case['build']) >= 4:
                             # the profile built in two steps: part of the building traces, build(), the rest through a second building container, build() again
                             half = len(case['build']) // 2
-                            cbA, _ = containers(dict(case, build=case['build'][:half]), dt, sc)
-                            cbB, _ = containers(dict(case, build=case['build'][half:]), dt, sc)
+                            cbA, _ = containers(dict(case, build=case['build'][:half]), dt, sc, off)
+                            cbB, _ = containers(dict(case, build=case['build'][half:]), dt, sc, off)
                             a = attacks(case, cbA, prec, which)
                             a.build()
                             a.container_building = cbB
                             ctx = dict(ctx, build_in_two_steps=half)
                         a.build()
                         nonempty = [k for k, cv in enumerate(c['classes']) if any(r['d'][0] == cv for r in case['build'])]
-                        want_t = np.array([[fr(x) * sc for x in row] for row in rs['tpl']])
+                        want_t = np.array([[fr(x) * sc + off for x in row] for row in rs['tpl']])
                         got_t = np.asarray(a.templates, dtype='float64')
                         big = max(1.0, float(np.abs(want_t).max()))
                         cmp(chk, 'template of a class is the mean of its building traces', got_t[nonempty], want_t[nonempty], prec, 4, dict(ctx, mag=big), 'templates')
@@ -276,7 +280,7 @@ def replay(chk, path):
     old = scared.Container._BATCH_SIZE
     try:
         scared.set_batch_size(rp['batch_size'])
-        cb, cm = containers(case, rp['trace_dtype'], rp['scale'])
+        cb, cm = containers(case, rp['trace_dtype'], rp['scale'], rp.get('offset', 0))
         a = attacks(case, cb, rp['precision'], rp['which'])
         a.build()
         print('templates now:', np.asarray(a.templates).tolist())
